@@ -6,6 +6,7 @@ import (
 	"strconv"
 	"strings"
 	"sync"
+	"syscall"
 	"time"
 )
 
@@ -529,7 +530,9 @@ func (s *Sched) await(t *Task) (Outcome, bool) {
 	}
 	timer := s.timer
 	defer timer.Stop()
-	start := time.Now() // detection only; never feeds a decision of the simulated run
+	// detection only; never feeds a decision of the simulated run. Measured in CPU time of this process, not wall time:
+	// a suspended VM or a starved process makes the wall clock jump without the task having computed anything
+	start := cpuTime()
 	prev := ""
 	for {
 		select {
@@ -547,13 +550,13 @@ func (s *Sched) await(t *Task) (Outcome, bool) {
 				continue
 			}
 			prev = ""
-			if time.Since(start) > s.SpinLimit && (state == "running" || state == "runnable") {
+			if cpuTime()-start > s.SpinLimit && (state == "running" || state == "runnable") {
 				// the task has been computing for seconds without reaching any yield point: a busy-wait loop on state that
 				// only a parked task can change (operations of the system under test take micro- to milliseconds)
 				s.leaked = true
 				return Outcome{Kind: Stalled, Task: t, State: "busy loop (no yield point reached for " + s.SpinLimit.String() + ")", Stack: stack}, false
 			}
-			if time.Since(start) > s.HardLimit {
+			if cpuTime()-start > s.HardLimit {
 				s.leaked = true
 				return Outcome{Kind: Watchdog, Task: t, State: state, Stack: stack, Detail: "task did not yield within the hard limit"}, false
 			}
@@ -646,3 +649,12 @@ func (c *Counter) Get() int { return c.n }
 
 // AtLeast returns a gate condition.
 func (c *Counter) AtLeast(v int) func() bool { return func() bool { return c.Get() >= v } }
+
+// cpuTime is the CPU time (user + system) consumed by this process so far.
+func cpuTime() time.Duration {
+	var ru syscall.Rusage
+	if err := syscall.Getrusage(syscall.RUSAGE_SELF, &ru); err != nil {
+		return 0
+	}
+	return time.Duration(ru.Utime.Nano() + ru.Stime.Nano())
+}
